@@ -283,7 +283,9 @@ func main() {
 	switch *streamName {
 	case "race":
 		deadline = 900 * time.Second
-	case "watch", "reconf", "fswrite", "cli", "cache", "defaultapi", "crash", "codec", "schema", "purity":
+	case "crash":
+		deadline = 60 * time.Second
+	case "watch", "reconf", "fswrite", "cli", "cache", "defaultapi", "codec", "schema", "purity":
 		deadline = 180 * time.Second
 	}
 	if d, err := time.ParseDuration(os.Getenv("VERIF_CASE_DEADLINE")); err == nil && d > 0 {
